@@ -162,6 +162,11 @@ def _link_witness(m, rep, r4, hdrs, flags, wd, ccs):
         o = p[:-2] + '.o'
         cobjs[fn] = o
         jobs.append([cc] + flags + ['-O0', '-c', p, '-o', o])
+    # the same single-unit client as a debug build (no NDEBUG) against the release library: what a header compiles to
+    # must not depend on symbols the library only has in another configuration
+    dflags = [x for x in flags if x != '-DNDEBUG'] + ['-UNDEBUG']
+    cobjs['client1d.c'] = os.path.join(wd, 'client1d.o')
+    jobs.append([cc] + dflags + ['-O0', '-c', os.path.join(wd, 'client1.c'), '-o', cobjs['client1d.c']])
 
     def runj(cmd):
         p = subprocess.run(cmd, stdout=subprocess.PIPE, stderr=subprocess.PIPE)
@@ -186,6 +191,8 @@ def _link_witness(m, rep, r4, hdrs, flags, wd, ccs):
         ('static,2-units', [cobjs['client2a.c'], cobjs['client2b.c'], lib_a]),
         ('shared,1-unit', [cobjs['client1.c'], lib_so]),
         ('shared,2-units', [cobjs['client2a.c'], cobjs['client2b.c'], lib_so]),
+        ('static,1-unit,client-without-NDEBUG', [cobjs['client1d.c'], lib_a]),
+        ('shared,1-unit,client-without-NDEBUG', [cobjs['client1d.c'], lib_so]),
     ]
     for label, inputs in links:
         # --whole-archive: the client must be linkable next to *every* library object, not only
